@@ -53,6 +53,11 @@ func (curve koblitzCurve) IsOnCurve(x, y *big.Int) bool {
 
 // affineFromJacobian reverses the Jacobian transform.
 func (curve koblitzCurve) affineFromJacobian(x, y, z *big.Int) (xOut, yOut *big.Int) {
+	// the point at infinity is represented by (0, 0) in affine coordinates
+	if z.Sign() == 0 {
+		return new(big.Int), new(big.Int)
+	}
+
 	zinv := new(big.Int).ModInverse(z, curve.P)
 	zinvsq := new(big.Int).Mul(zinv, zinv)
 
@@ -65,15 +70,34 @@ func (curve koblitzCurve) affineFromJacobian(x, y, z *big.Int) (xOut, yOut *big.
 	return
 }
 
+// zForAffine returns a Jacobian Z value for the affine point (x, y).
+// If x and y are zero, it assumes that they represent the point at infinity.
+func zForAffine(x, y *big.Int) *big.Int {
+	z := new(big.Int)
+	if x.Sign() != 0 || y.Sign() != 0 {
+		z.SetInt64(1)
+	}
+	return z
+}
+
 func (curve koblitzCurve) Add(x1, y1, x2, y2 *big.Int) (*big.Int, *big.Int) {
-	z := new(big.Int).SetInt64(1)
-	return curve.affineFromJacobian(curve.addJacobian(x1, y1, z, x2, y2, z))
+	z1 := zForAffine(x1, y1)
+	z2 := zForAffine(x2, y2)
+	return curve.affineFromJacobian(curve.addJacobian(x1, y1, z1, x2, y2, z2))
 }
 
 // addJacobian takes two points in Jacobian coordinates, (x1, y1, z1) and
 // (x2, y2, z2) and returns their sum, also in Jacobian form.
 func (curve koblitzCurve) addJacobian(x1, y1, z1, x2, y2, z2 *big.Int) (*big.Int, *big.Int, *big.Int) {
 	// See http://hyperelliptic.org/EFD/g1p/auto-shortw-jacobian-0.html#addition-add-2007-bl
+	// adding the point at infinity returns the other point
+	if z1.Sign() == 0 {
+		return new(big.Int).Set(x2), new(big.Int).Set(y2), new(big.Int).Set(z2)
+	}
+	if z2.Sign() == 0 {
+		return new(big.Int).Set(x1), new(big.Int).Set(y1), new(big.Int).Set(z1)
+	}
+
 	z1z1 := new(big.Int).Mul(z1, z1)
 	z1z1.Mod(z1z1, curve.P)
 	z2z2 := new(big.Int).Mul(z2, z2)
@@ -100,6 +124,10 @@ func (curve koblitzCurve) addJacobian(x1, y1, z1, x2, y2, z2 *big.Int) (*big.Int
 	r := new(big.Int).Sub(s2, s1)
 	if r.Sign() == -1 {
 		r.Add(r, curve.P)
+	}
+	// the addition formula does not cover the sum of a point with itself
+	if h.Sign() == 0 && r.Sign() == 0 {
+		return curve.doubleJacobian(x1, y1, z1)
 	}
 	r.Lsh(r, 1)
 	v := new(big.Int).Mul(u1, i)
@@ -136,7 +164,7 @@ func (curve koblitzCurve) addJacobian(x1, y1, z1, x2, y2, z2 *big.Int) (*big.Int
 }
 
 func (curve koblitzCurve) Double(x1, y1 *big.Int) (*big.Int, *big.Int) {
-	z1 := new(big.Int).SetInt64(1)
+	z1 := zForAffine(x1, y1)
 	return curve.affineFromJacobian(curve.doubleJacobian(x1, y1, z1))
 }
 
@@ -175,38 +203,19 @@ func (curve koblitzCurve) doubleJacobian(x, y, z *big.Int) (*big.Int, *big.Int, 
 }
 
 func (curve koblitzCurve) ScalarMult(Bx, By *big.Int, k []byte) (*big.Int, *big.Int) {
-	// We have a slight problem in that the identity of the group (the
-	// point at infinity) cannot be represented in (x, y) form on a finite
-	// machine. Thus the standard add/double algorithm has to be tweaked
-	// slightly: our initial state is not the identity, but x, and we
-	// ignore the first true bit in |k|.  If we don't find any true bits in
-	// |k|, then we return nil, nil, because we cannot return the identity
-	// element.
+	// standard double-and-add starting from the point at infinity,
+	// which addJacobian and doubleJacobian handle and affineFromJacobian maps to (0, 0)
+	Bz := zForAffine(Bx, By)
+	x, y, z := new(big.Int), new(big.Int), new(big.Int)
 
-	Bz := new(big.Int).SetInt64(1)
-	x := Bx
-	y := By
-	z := Bz
-
-	seenFirstTrue := false
 	for _, byte := range k {
 		for bitNum := 0; bitNum < 8; bitNum++ {
-			if seenFirstTrue {
-				x, y, z = curve.doubleJacobian(x, y, z)
-			}
+			x, y, z = curve.doubleJacobian(x, y, z)
 			if byte&0x80 == 0x80 {
-				if !seenFirstTrue {
-					seenFirstTrue = true
-				} else {
-					x, y, z = curve.addJacobian(Bx, By, Bz, x, y, z)
-				}
+				x, y, z = curve.addJacobian(Bx, By, Bz, x, y, z)
 			}
 			byte <<= 1
 		}
-	}
-
-	if !seenFirstTrue {
-		return nil, nil
 	}
 
 	return curve.affineFromJacobian(x, y, z)
